@@ -42,7 +42,7 @@ func checkFast(w []byte, a *ref.PDA, used *rjson.Buffer) (string, bool, string, 
 }
 
 func c11(r *eng.Run) {
-	D := r.Pick(2, 4)
+	D := r.Pick(2, 3)
 	K := r.Pick(1, 2)
 	used := usedBuffer()
 	sp := e1Spec{
